@@ -63,6 +63,19 @@ TABLE = {
  "C18": [("Proofs/StructBound", n) for n in ["pop_bound_sound", "pop_bound_bounded", "core_bounded_crun", "view_bounded_state_after", "sma_pop", "cyber_pop"]] +
         [("Proofs/StructSched", n) for n in ["sched_pop_bound", "sched_pop_bounded"]],
 }
+EXTRA14 = {
+ "C16": [("Proofs/BridgeWOps", n) for n in ["prim_sqrt_fin", "prim_sqrt_fin_inv", "prim_sqrt_neg", "prim_div_ge1_fin", "prim_arith_sim3"]] +
+        [("Proofs/BridgeWP", n) for n in ["welford_bridge", "welford_mean_bridge", "welford_var_bridge", "welford_bridge_run", "vst_bridge", "vsct_bridge", "wr_bridge", "wr_bridge_run",
+                                          "welford_mean_prim_drift", "welford_m2_prim_drift", "welford_var_prim_drift", "welford_std_prim_drift", "vst_prim_drift", "vsct_prim_drift",
+                                          "wr_s_prim_drift", "wr_var_prim_drift", "welford_answers_finite", "welford_checkers_weaken"]] +
+        [("Proofs/BridgeWBound", n) for n in ["sma_all_finite_of_bound", "sma_all_finite_of_bound_simple", "sma_prim_drift_bounded", "sma_bridge_bounded",
+                                              "cumulative_all_finite_of_bound", "cumulative_prim_drift_bounded"]],
+ "C13": [("Proofs/BridgeWP", n) for n in ["wr_bridge", "wr_s_prim_drift", "wr_var_prim_drift"]],
+ "C02": [("Proofs/BridgeWP", n) for n in ["welford_mean_prim_drift", "welford_var_prim_drift", "welford_std_prim_drift", "vst_prim_drift", "vsct_prim_drift"]] +
+        [("Proofs/BridgeWBound", n) for n in ["sma_prim_drift_bounded", "cumulative_prim_drift_bounded"]],
+ "C04": [("Proofs/BridgeWBound", "sma_prim_drift_bounded")],
+ "C08": [("Proofs/BridgeWP", "welford_answers_finite")],
+}
 EXTRA13 = {
  "C14": [("Proofs/FAccBComb", n) for n in ["add_f64_correctly_rounded", "sub_f64_correctly_rounded", "mul_f64_correctly_rounded", "div_f64_correctly_rounded",
                                            "add_f64_run", "sub_f64_run", "mul_f64_run", "div_f64_run", "binop_last_none", "gte_f64_exact", "lte_f64_exact",
@@ -200,7 +213,7 @@ def header_of(path, name):
     return " ".join(m.group(1).split())
 
 def _merge_extra():
-    for ex in (EXTRA2, EXTRA3, EXTRA4, EXTRA5, EXTRA6, EXTRA7, EXTRA8, EXTRA9, EXTRA10, EXTRA11, EXTRA12, EXTRA13):
+    for ex in (EXTRA2, EXTRA3, EXTRA4, EXTRA5, EXTRA6, EXTRA7, EXTRA8, EXTRA9, EXTRA10, EXTRA11, EXTRA12, EXTRA13, EXTRA14):
         for k, v in ex.items():
             EXTRA[k] = EXTRA.get(k, []) + v
 
@@ -241,6 +254,7 @@ def checked_types(pid, items):
     return res
 
 LEVELS = {}
+_OK = {}
 def load_levels():
     p_ = os.path.join(ROOT, "gen_properties.levels")
     if os.path.exists(p_):
@@ -292,9 +306,19 @@ def _main():
         changed = False
         from concurrent.futures import ThreadPoolExecutor
         pids = sorted(set(TABLE) | set(EXTRA))
+        import hashlib, glob, types
         def comp(pid):
             fn = os.path.join(COQ, "Properties", pid + ".v")
-            return pid, fn, subprocess.run("coqc -noglob -Q %s SF %s" % (COQ, fn), shell=True, capture_output=True, text=True)
+            h = hashlib.sha256(open(fn, "rb").read()).hexdigest()
+            vo = fn + "o"
+            deps_newest = max(os.path.getmtime(f) for f in glob.glob(os.path.join(COQ, "*.vo")) + glob.glob(os.path.join(COQ, "Proofs", "*.vo")))
+            if _OK.get(pid) == h or (it == 0 and os.path.exists(vo) and os.path.getmtime(vo) > deps_newest and os.path.getmtime(vo) > os.path.getmtime(fn)):
+                _OK[pid] = h
+                return pid, fn, types.SimpleNamespace(returncode=0, stdout="", stderr="")
+            r = subprocess.run("coqc -noglob -Q %s SF %s" % (COQ, fn), shell=True, capture_output=True, text=True)
+            if r.returncode == 0:
+                _OK[pid] = h
+            return pid, fn, r
         with ThreadPoolExecutor(16) as ex:
             results = list(ex.map(comp, pids))
         for pid, fn, r in results:
